@@ -1553,7 +1553,27 @@ func (in *Interp) valueEqual(a, b Value) *Term {
 		y, ok := b.(*NativeV)
 		return BoolC(ok && x == y)
 	case *DecV:
-		in.unsupported("== on decimal128.Decimal structs")
+		// Go's == on the struct compares the encoding, not the number: equal
+		// encodings denote equal values, equal values may have different
+		// encodings (1.0 / 1, cohorts). The abstraction keeps the value only,
+		// so for equal values both answers are explored (a candidate built on
+		// the "different encoding" answer is confirmed or dropped by replay).
+		y, ok := b.(*DecV)
+		if !ok {
+			return False
+		}
+		if x == y {
+			return True
+		}
+		if x.Cls != y.Cls {
+			return False
+		}
+		if x.Cls == DFinite {
+			if in.decide("deceq", []*Term{Not(Eq(x.Val, y.Val)), Eq(x.Val, y.Val)}) == 0 {
+				return False
+			}
+		}
+		return BoolC(in.choose("decrepr", 2) == 0)
 	case *MapV, SliceV, *FuncV:
 		in.goPanic("runtime error: comparing uncomparable type")
 	}
